@@ -35,8 +35,7 @@ CHECK_DEADLOCK FALSE
 
 
 def build():
-    common.prepare_harness()
-    return common.go_build_test("skipdrv", "skipdrv.test")
+    return common.go_build_test("skipdrv")
 
 
 def check(run, replay=None):
